@@ -240,7 +240,7 @@ class Exec(Interp):
                     h("literal", interp=self, path=rv["path"], value=val, state=S, site=site)
                 return val
             if ak == "closure":
-                return Struct("closure:" + rv["path"], ops)
+                return Struct("closure:%s@%s" % (rv["key"], rv.get("inst", "")), ops)
             return Opaque()
         if k == "repeat":
             v = self.operand(S, frame, rv["op"], site)
@@ -430,6 +430,15 @@ class Exec(Interp):
             inst["_rpo"] = r
         return r
 
+    @staticmethod
+    def descends(fr, frame, bi):
+        """Is activation frame `fr` nested (at any depth) in the call made by block bi of `frame`?"""
+        while isinstance(fr, tuple) and len(fr) > 2 and fr[0] == "F":
+            if fr[1] == frame and fr[2] == bi:
+                return True
+            fr = fr[1]
+        return False
+
     def show(self, S, v, depth=0):
         if isinstance(v, Scalar):
             return "s%d∈%s%s" % (v.sym, D.fmt(S.ivof(v.sym)), ("=" + repr(S.lin[v.sym])) if v.sym in S.lin else "")
@@ -508,6 +517,10 @@ class Exec(Interp):
             T = J.copy()
             b = blocks[bi]
             self.cur_inst = inst
+            self.cur_frame = frame
+            # verdicts recorded by earlier visits of this block (and of activations nested in it) are superseded
+            if nv:
+                self.forget_block(frame, bi)
             if self.trace and self.trace in inst["name"]:
                 self.dump(inst, frame, bi, J)
             for si, st in enumerate(b["stmts"]):
@@ -516,6 +529,7 @@ class Exec(Interp):
                     break
             outs = [] if T.dead else self.terminator(T, frame, inst, bi, b["term"])
             self.cur_inst = inst
+            self.cur_frame = frame
             seen_t = set()
             for tgt, U in outs:
                 if tgt == "return":
@@ -754,7 +768,7 @@ class Exec(Interp):
         if isinstance(fv, FnPtr) and isinstance(fv.target, Fn):
             return self.call_fn_item(S, frame, inst, bi, t, fv.target, args, site)
         if isinstance(fv, FnPtr) and isinstance(fv.target, Struct) and fv.target.path.startswith("closure:"):
-            return self.call_closure(S, frame, inst, bi, t, fv.target, args, site, by_ref=False)
+            return self.call_closure(S, frame, inst, bi, t, fv.target, [fv.target, Struct("tuple", args)], site, by_ref=False)
         # environment callback: result is anything of the return type; &mut arguments are havocked
         for h in self.hooks:
             h("env_call", interp=self, inst=inst, term=t, args=args, state=S, site=site)
@@ -793,26 +807,26 @@ class Exec(Interp):
         return self.call_model(S, frame, inst, bi, t, {"def": path, "crate": crate, "args": d.get("args", []), "local": False}, args, site)
 
     def call_closure(self, S, frame, inst, bi, t, clo, args, site, by_ref):
-        cpath = clo.path[len("closure:"):]
-        cands = [i for i in self.f.instances if i["path"] == cpath and i.get("closure")]
-        # several instantiations of the enclosing generic function may exist; pick the one whose root matches ours
+        key, _, iid = clo.path[len("closure:"):].partition("@")
         target = None
-        if len(cands) == 1:
-            target = cands[0]
-        else:
-            want = self.closure_pick.get(id(clo)) if hasattr(self, "closure_pick") else None
-            for c in cands:
-                if want is not None and c["id"] == want:
-                    target = c
-            if target is None and cands:
-                target = self.pick_closure_by_types(cands, clo, args)
+        if iid:
+            target = self.inst_by_id.get(int(iid))
         if target is None:
-            self.note("UNMODELLED", "closure body not found: %s" % cpath, t.get("span") if t else None)
+            cands = [i for i in self.f.instances if i["key"] == key and i.get("closure")]
+            if len(cands) == 1:
+                target = cands[0]
+            elif cands:
+                # closure of a generic function reached without its instance id: prefer the
+                # instantiation belonging to the function currently being analysed
+                for c in cands:
+                    if any(c["name"].startswith(n) for n in self.stack[::-1]):
+                        target = c
+                        break
+                target = target or cands[0]
+        if target is None:
+            self.note("UNMODELLED", "closure body not found: %s" % key, t.get("span") if t else None)
             return Opaque()
         return self.call_inst(S, target, args, site, t)
-
-    def pick_closure_by_types(self, cands, clo, args):
-        return cands[0]
 
     def call_desc(self, S, frame, inst, bi, t, r, args, site):
         kind = r.get("kind", "Item")
@@ -880,6 +894,8 @@ class Exec(Interp):
             raise Unsupported("arity mismatch calling %s: %d vs %d" % (callee["name"], len(args), nargs))
         for i, a in enumerate(args):
             S.cells[(frame, i + 1)] = a
+        if len(site) >= 2:
+            self.children.setdefault((site[0], site[1]), set()).add(frame)
         self.stack.append(callee["name"])
         self.call_log.append((len(self.stack), callee["name"]))
         for h in self.hooks:
@@ -937,7 +953,10 @@ class Exec(Interp):
         self.cur_inst = inst
         for h in self.hooks:
             h("root", interp=self, inst=inst, args=args, state=S)
+        self.site_results = {}
+        self.children = {}
         R = self.run_body(inst, S, frame)
+        self.fold_site_results()
         return R, frame, args
 
 
